@@ -4,6 +4,7 @@ import (
 	"fmt"
 	"go/token"
 	"go/types"
+	"regexp"
 	"strings"
 
 	"golang.org/x/tools/go/ssa"
@@ -13,12 +14,13 @@ import (
 
 func init() {
 	register(&Prop{
-		ID:    "C16",
-		Title: "Message comparers are sound equivalences",
+		ID:          "C16",
+		Title:       "Message comparers are sound equivalences",
 		Explanation: "R16.1 the default comparer mirrors proto.Equal structurally: compare handles nil and validity, equalMessage rejects different descriptors, stops at the first unequal field, requires the field to be set on both sides, compares field counts and unknown fields; equalField dispatches lists and maps before scalars and its change_time exception needs both the field name and a containing message called Change; equalValue covers every protoreflect.Kind with the accessor of that kind (NaN equal to NaN for floats) and consults the value comparer first, honouring its ok flag. R16.2 each tolerance comparer returns ok=false on every path where the field is not of its own kind / message type. R16.3 whenever a tolerance comparer decides (ok=true) its verdict is a constant, an agreement of validity, or `absdiff(x, y) <=/< T` where absdiff is one of the accepted absolute-difference idioms over one quantity derived from x and one derived from y, and T depends on x and y only through min/max of the same function of both (reflexive and symmetric by form). DurationValueWithinP does not have this form: recorded known finding F-15. R16.4 And/Or return at the first false/true and true/false after the loop; ValueAnd/ValueOr propagate ok only from comparers that spoke. R16.5 the resources apply the equivalence to projected values and skip only on its verdict (shared with R04.5/R04.6). Does NOT decide agreement with proto.Equal on all message pairs, tolerance arithmetic, NaN and unknown-field corner cases.",
 		Assumptions: []string{"math.Abs/Min/Max, time.Time.Sub/Before have their mathematical meaning"},
 		Run:         runC16,
 		Controls: []Control{
+			{Name: "unknown-fields-last-occurrence-only", File: "pkg/cmp/cmp.go", Old: "\t\tmx[fnum] = append(mx[fnum], x[:n]...)", New: "\t\tmx[fnum] = x[:n:n]", Expect: "R16.1"},
 			{Name: "delete-kind-case", File: "pkg/cmp/cmp.go", Old: "\tcase pref.StringKind:\n\t\treturn x.String() == y.String()\n", New: "", Expect: "R16.1"},
 			{Name: "uint-compared-as-int", File: "pkg/cmp/cmp.go", Old: "\t\treturn x.Uint() == y.Uint()", New: "\t\treturn x.Int() == y.Int()", Expect: "R16.1"},
 			{Name: "change-time-anywhere", File: "pkg/cmp/cmp.go", Old: "case fd.Name() == \"change_time\" && fd.ContainingMessage().Name() == \"Change\":", New: "case fd.Name() == \"change_time\":", Expect: "R16.1"},
@@ -41,6 +43,7 @@ const cmpPkg = "pkg/cmp"
 
 func runC16(c *an.Ctx) {
 	r161(c)
+	r161unknown(c)
 	r162and3(c)
 	r164(c)
 	r045as(c, "R16.5")
@@ -137,8 +140,73 @@ func r161(c *an.Ctx) {
 			case "Bytes":
 				ok = strings.Contains(ret, "bytes.Equal") && strings.Contains(calls, ".Bytes(x)") && strings.Contains(calls, ".Bytes(y)")
 			case "Float":
-				// NaN handling: the verdict depends on math.IsNaN of both
-				ok = strings.Contains(calls, ".Float(x)") && strings.Contains(calls, ".Float(y)") && strings.Contains(calls, "math.IsNaN")
+				// the verdict is `fx == fy, or both NaN`, as a truth table over the three tests this path may consult
+				// (whatever their order and short-circuiting); combinations that cannot occur (equal yet NaN) are skipped
+				var eqA, nxA, nyA string
+				scan := func(a string) {
+					hasX, hasY := strings.Contains(a, ".Float(x)"), strings.Contains(a, ".Float(y)")
+					switch {
+					case strings.Contains(a, "math.IsNaN(") && hasX && !hasY:
+						nxA = a
+					case strings.Contains(a, "math.IsNaN(") && hasY && !hasX:
+						nyA = a
+					case hasX && hasY && strings.Contains(a, "=="):
+						eqA = a
+					}
+				}
+				// math.IsNaN is pure: a second evaluation (`call#2 math.IsNaN(v)`) is the same test as the first
+				pure := regexp.MustCompile(`call#\d+ math\.IsNaN`)
+				assign := map[string]string{}
+				infeasible := false
+				for a, v := range l.AssignM {
+					na := pure.ReplaceAllString(a, "call math.IsNaN")
+					if prev, dup := assign[na]; dup && prev != v {
+						infeasible = true // the same pure test came out both ways: no execution takes this path
+					}
+					assign[na] = v
+				}
+				ret = pure.ReplaceAllString(ret, "call math.IsNaN")
+				for a := range assign {
+					scan(a)
+				}
+				scan(strings.TrimPrefix(ret, "!"))
+				ok = strings.Contains(calls, ".Float(x)") && strings.Contains(calls, ".Float(y)")
+				if infeasible {
+					c.Check(ok, rule, name+"|"+kn+" compared with its own accessor", l.RetPos, acc, "a field of kind "+kn+" is compared without its Float accessor")
+					continue
+				}
+				for _, e := range []bool{true, false} {
+					for _, nx := range []bool{true, false} {
+						for _, ny := range []bool{true, false} {
+							if e && (nx || ny) {
+								continue
+							}
+							env := map[string]bool{}
+							if eqA != "" {
+								env[eqA] = e
+							}
+							if nxA != "" {
+								env[nxA] = nx
+							}
+							if nyA != "" {
+								env[nyA] = ny
+							}
+							consistent := true
+							for a, v := range assign {
+								if val, known := env[a]; known && fmt.Sprint(val) != v {
+									consistent = false
+								}
+							}
+							if !consistent {
+								continue
+							}
+							got, evaluable := evalBool(ret, env)
+							if !evaluable || got != (e || (nx && ny)) {
+								ok = false
+							}
+						}
+					}
+				}
 			default:
 				ok = strings.Contains(ret, "."+acc+"(x)") && strings.Contains(ret, "."+acc+"(y)") && strings.Contains(ret, "==")
 			}
@@ -220,7 +288,7 @@ func r161(c *an.Ctx) {
 		c.Check(okDesc, rule, name+"|different descriptors are unequal", fn.Pos(), "", "messages of different types are not rejected")
 		// first Range callback: equal = my.Has(fd) && equalField(...); return equal
 		okCb := false
-		for _, a := range fn.AnonFuncs {
+		for _, a := range an.AnonFuncsDeep(fn) {
 			has, field := false, false
 			an.Instrs(a, func(in ssa.Instruction) {
 				if call, ok := in.(*ssa.Call); ok {
@@ -1136,4 +1204,59 @@ func r165held(c *an.Ctx, rule string) {
 			c.Unk(rule, cons, fn.Pos(), "no equivalence.Compare call found in the Pull goroutine")
 		}
 	}
+}
+
+// r161unknown: unknown fields are compared per field number with ALL their occurrences: the per-number index is
+// built by appending each raw entry to what was already recorded for that number.
+func r161unknown(c *an.Ctx) {
+	const rule = "R16.1"
+	fn := mustFunc(c, rule, cmpPkg, "equator", "equalUnknown")
+	if fn == nil {
+		return
+	}
+	name := "(pkg/cmp.equator).equalUnknown"
+	n, ok := 0, true
+	var where ssa.Instruction
+	scope := append([]*ssa.Function{fn}, an.AnonFuncsDeep(fn)...)
+	for _, vc := range an.CallsToDeepMatch(fn, func(s string) bool { return strings.HasSuffix(s, "protowire.ConsumeField") }) {
+		if vc.Via != nil {
+			scope = append(scope, vc.Via)
+		}
+	}
+	seen := map[*ssa.Function]bool{}
+	for _, f := range scope {
+		if seen[f] {
+			continue
+		}
+		seen[f] = true
+		an.Instrs(f, func(in ssa.Instruction) {
+			mu, isMU := in.(*ssa.MapUpdate)
+			if !isMU || !strings.Contains(mu.Map.Type().String(), "RawFields") {
+				return
+			}
+			n++
+			// the stored value is append(<the map's entry for the same key>, …)
+			accumulates := false
+			for _, v := range an.ValuesAt(mu.Value) {
+				call, isCall := v.(*ssa.Call)
+				if !isCall || an.CalleeName(call) != "builtin append" {
+					continue
+				}
+				for _, b := range an.ValuesAt(call.Call.Args[0]) {
+					if lk, isLk := b.(*ssa.Lookup); isLk && lk.X == mu.Map && an.SameValues(lk.Index, mu.Key) {
+						accumulates = true
+					}
+				}
+			}
+			if !accumulates {
+				ok, where = false, in
+			}
+		})
+	}
+	pos := fn.Pos()
+	if where != nil {
+		pos = where.Pos()
+	}
+	c.Check(ok && n >= 2, rule, name+"|every occurrence of an unknown field number is compared", pos, fmt.Sprintf("%d index updates", n),
+		"the per-field-number index of unknown fields does not append to the entries already recorded for that number: with a repeated unknown field only the last occurrence is compared, so messages that differ in an earlier one are reported equal (proto.Equal says they differ)")
 }
